@@ -4,6 +4,12 @@ import json, os, subprocess
 ROOT = os.path.dirname(os.path.dirname(os.path.abspath(__file__)))
 
 CHECKS = {
+ "C07": dict(
+   technique="property-based testing: law checking (reflexive/antisymmetric/transitive/eq-cmp-hash agreement) over generated value triples biased to same-value-different-representation twins; metamorphic agreement of template operators; algebraic laws of sort/unique/groupby/batch/slice/reverse/min/max over generated inputs with hidden identities; both map implementations",
+   level="exploration",
+   text="Generated triples and pairs of values of every kind and representation are checked against the order/equality/hash laws at the Value API and through template operators (==, <, in, dict lookup, unique, is eq); collection filters are checked against their defining laws (ordered + permutation + stable, partition, concatenation, involution, bounds) on inputs with hidden ids. Run for the BTreeMap build and, as a sub-process, the preserve_order (IndexMap) build.",
+   note="Sortedness of filter output is judged with Value::cmp (the order itself is judged by the laws part). Case-insensitive order of non-ASCII strings is not asserted (differs with the unicode feature). One open known finding (map insertion order under preserve_order).",
+   design="3/C07"),
  "C08": dict(
    technique="property-based testing (proptest): boundary-biased operand generator, differential against an independent big-integer / scaled-integer oracle, across every operand representation",
    level="exploration",
